@@ -16,6 +16,10 @@ limitations under the License.
 
 #include "libcellml/variable.h"
 
+#ifdef LIBCELLML_VERIF
+#    include "verifhooks.h"
+#endif
+
 #include <algorithm>
 #include <cassert>
 #include <map>
@@ -228,6 +232,10 @@ bool haveEquivalentVariables(const Variable *variable1,
     }
 
     testedVariables.push_back(variable2);
+
+#ifdef LIBCELLML_VERIF
+    verif::yield("haveEquivalentVariables");
+#endif
 
     for (size_t i = 0; i < variable2->equivalentVariableCount(); ++i) {
         Variable *equivalentVariable2 = variable2->equivalentVariable(i).get();
